@@ -143,7 +143,13 @@ func (backupManager *BackupManager) DoNativeBackup() error {
 	readTxn := backupManager.store.database.NewTransaction(false)
 	committedBefore := readTxn.ReadTs()
 	readTxn.Discard()
-	since, err := backupManager.store.database.Backup(file, backupManager.lastID)
+	// one iterator, hence one read transaction: what is written is the state of the store at one instant, never
+	// part of a batch (an entity's latest pointer without the version it points at)
+	stream := backupManager.store.database.NewStream()
+	stream.LogPrefix = "DB.Backup"
+	stream.NumGo = 1
+	stream.SinceTs = backupManager.lastID
+	since, err := stream.Backup(file, backupManager.lastID)
 	if err != nil {
 		return err
 	}
